@@ -136,6 +136,9 @@ def main():
     c = os.path.join(vlib.scratch(), "demo_ma.cfg")
     open(c, "w").write('SPECIFICATION Spec\nCONSTANTS\n Ids = {1, 2}\n Vals = {1, 2}\n Shape = "plain"\n MaxTx = 3\n NullSafe = FALSE\nINVARIANTS C11_View C11_Keys\n')
     flip("Matcher NullSafe=FALSE", "Matcher.tla", c, ["C11_View"])
+    c = os.path.join(vlib.scratch(), "demo_se.cfg")
+    open(c, "w").write("SPECIFICATION Spec\nCONSTANTS\n ColumnFirst = FALSE\nINVARIANTS C01_RelayConverged C01_ClientConverged C05_NothingDropped\n")
+    flip("Sentinel ColumnFirst=FALSE (as found)", "Sentinel.tla", c, ["C05_NothingDropped", "C01_ClientConverged"])
     c = prop_c02.write_cfg("demo_bk", prop_c02.CONFIGS_QUICK["B"], "Spec", fullstart=1)
     flip("Bookkeeping FullStart=1 (as found)", "MCBookkeeping.tla", c, None)
     res["wall_s"] = round(time.time() - t0, 1)
